@@ -129,6 +129,8 @@ def main():
         if not d.get("exhaustive", True): exhaustive = False
         if d.get("bound") and d["bound"] not in bounds: bounds.append(d["bound"])
         for v in d.get("violations", []):
+            if plan.get("only_own_violations") and j["check"] != plan["only_own_violations"]:
+                notes.append("violation of another property seen while collecting sanitizer reports (reported by its own check): " + v["key"]); continue
             e = viols.setdefault(v["key"], dict(key=v["key"], what=v["what"], case=v["case"], count=0, variant=j["variant"], check=j["check"]))
             e["count"] += v.get("count", 1)
             if len(v["case"]) < len(e["case"]): e["case"] = v["case"]; e["variant"] = j["variant"]
@@ -161,6 +163,14 @@ def main():
         print("KNOWN-FINDING: property=%s %s [%s] (%d cases, e.g. %s)" % (pid, kf.get("what", v["what"]), kf["key"], v["count"], v["case"][:200]))
     for n, v in enumerate(new_viol):
         path = os.path.join(rdir, "%d.json" % n)
+        if v["case"].startswith("VXREPLAY "):      # a recorded schedule of the vmpi engine: keep it next to the replay descriptor
+            sched = v["case"].split(" ", 2)[1]; dst = os.path.join(rdir, "%d.schedule.json" % n)
+            try: shutil.copy(sched, dst)
+            except Exception: dst = sched
+            json.dump(dict(property=pid, tier=tier, key=v["key"], what=v["what"], case=v["case"], count=v["count"], variant=v["variant"], check=v["check"],
+                           argv=[os.path.join(blds[v["variant"]], "hx", "vx"), "replay", dst]), open(path, "w"), indent=1)
+            print("VIOLATION property=%s replay=%s" % (pid, path)); print("   key=%s\n   what=%s\n   case=%s" % (v["key"], v["what"][:600], v["case"]))
+            continue
         json.dump(dict(property=pid, tier=tier, key=v["key"], what=v["what"], case=v["case"], count=v["count"], variant=v["variant"], check=v["check"],
                        replay_cmd="python3 bin/run_check.py --property %s --tier %s --match '%s'" % (pid, tier, v["case"].split(" ", 1)[-1] if v["case"].startswith(v["check"] + " ") else v["case"])),
                   open(path, "w"), indent=1)
